@@ -1859,7 +1859,12 @@ func modeRaceStress(args []string) {
 				for i := 0; i < n; i++ {
 					cmd := cmds[next()%len(cmds)]
 					c.SetDeadline(time.Now().Add(time.Second))
-					if _, err := exchange(c, resp(cmd...)); err != nil {
+					req := resp(cmd...)
+					if next()%6 == 0 {
+						// top-level values that are not requests (a status line, an integer, a bulk string, an error): answered with an error reply
+						req = []string{"+PING\r\n", ":1\r\n", "$3\r\nfoo\r\n", "-ERR x\r\n", "*0\r\n", "*1\r\n*1\r\n$4\r\nPING\r\n"}[next()%6]
+					}
+					if _, err := exchange(c, req); err != nil {
 						break
 					}
 					atomic.AddInt64(&ops, 1)
